@@ -52,6 +52,8 @@ def main(argv=None):
     ap.add_argument("--replay")
     ap.add_argument("--no-confirm", action="store_true")
     args = ap.parse_args(argv)
+    if args.replay:
+        args.replay = os.path.abspath(args.replay)      # before any harness changes the working directory
     pid = args.pid.upper()
     seed = int(os.environ.get("VERIF_SEED", "0") or 0)
     os.environ.setdefault("PYTHONHASHSEED", "0")
@@ -71,7 +73,12 @@ def main(argv=None):
             traceback.print_exc()
             return 2
         want = rp.get("clause")
-        hit = [v for v in vs if v["clause"] == want] or vs
+        if os.environ.get("VERIF_REPLAY_STRICT"):
+            # regression corpus: only the clause the file was recorded for, and never a listed open finding
+            open_f = load_findings(pid)
+            hit = [v for v in vs if v["clause"] == want and not any(entry_matches(e, v) for e in open_f)]
+        else:
+            hit = [v for v in vs if v["clause"] == want] or vs
         for v in hit[:5]:
             print("REPLAY-VIOLATION property=%s clause=%s %s" % (pid, v["clause"], v["detail"]))
         if hit:
@@ -102,7 +109,7 @@ def main(argv=None):
         e = findings[i]
         print("KNOWN-FINDING: property=%s %s (%d explored executions match)" % (pid, e["what"], len(vs)))
 
-    rdir = os.path.join(common.VERIF, "replays", pid)
+    rdir = os.path.join(os.environ.get("VERIF_REPLAY_DIR") or os.path.join(common.VERIF, "replays"), pid)
     status = 0
     written = []
     seen_clause = {}
@@ -137,6 +144,33 @@ def main(argv=None):
 
     cov = dict(res["coverage"])
     cov.setdefault("exhaustive", not cov.get("caps_hit"))
+
+    # regression corpus: the replay files of the defects that were repaired in the repository (regressions/<id>/, collected by
+    # tools_regress.py with each fix reverted) are replayed without the explorer, one fresh process each
+    reg_dir = os.path.join(common.VERIF, "regressions", pid)
+    reg = sorted(os.path.join(reg_dir, f) for f in os.listdir(reg_dir) if f.endswith(".json")) if os.path.isdir(reg_dir) else []
+    if reg:
+        from concurrent.futures import ThreadPoolExecutor
+        env = {k: val for k, val in os.environ.items() if k != "VERIF_SCRATCH_BASE"}
+        env["VERIF_REPLAY_STRICT"] = "1"
+
+        def one(path):
+            return path, subprocess.run([sys.executable, "-m", "mc.cli", pid, "--replay", path], cwd=common.VERIF, capture_output=True, text=True, env=env)
+        with ThreadPoolExecutor(8) as ex:
+            outs = list(ex.map(one, reg))
+        bad = 0
+        for path, p in outs:
+            if p.returncode == 1:
+                bad += 1
+                print("  regression %s :: %s" % (os.path.basename(path), "; ".join(l for l in p.stdout.splitlines() if l.startswith("REPLAY-VIOLATION"))[:300]))
+                print("VIOLATION property=%s replay=%s" % (pid, path))
+                status = max(status, 1)
+            elif p.returncode != 0:
+                print(p.stdout[-1000:], p.stderr[-1000:])
+                print("harness error: regression replay failed to run:", path)
+                status = 2
+        cov["regression_replays"] = len(reg)
+        cov["regression_replays_failing"] = bad
     ev = {
         "property_id": pid,
         "tier": args.tier,
@@ -145,7 +179,7 @@ def main(argv=None):
         "coverage": cov,
         "assumptions": res.get("assumptions", []),
         "wall_s": round(time.time() - t0, 2),
-        "violations": len(unmatched),
+        "violations": len(unmatched) + cov.get("regression_replays_failing", 0),
         "known_findings_matched": sum(len(x) for x in matched.values()),
     }
     for k in ("states", "transitions", "traces_validated_against_impl", "samples"):
